@@ -406,29 +406,42 @@ Definition consumer_stop (s : state) (c h : N) (tag : string) : state :=
   | None => s
   end.
 
-(* channel.decQosAndConsumeNext *)
+(* channel.wakeOwnConsumers / channel.wakeConsumers: every consumer sharing a prefetch window with the channel is
+   signalled (the channel's own consumers; in the 0-9-1 dialect also those of the connection's other channels) *)
+Definition wake_all_of_chan (s : state) (c h : N) : state :=
+  upd_chan s c h (fun ch => ch <| ch_consumers ::= map (fun cm => fst (consume_msg cm)) |>).
+Definition wake_consumers (cfg : config) (s : state) (c h : N) : state :=
+  let s := wake_all_of_chan s c h in
+  if cfg_rabbit cfg then s
+  else match get_conn s c with
+       | Some cn => fold_left (fun s hk => if fst hk =? h then s else wake_all_of_chan s c (fst hk)) (cn_chans cn) s
+       | None => s
+       end.
+
+(* channel.decQosAndConsumeNext: release the windows of the delivery, then wake *)
 Definition dec_qos_and_consume_next (cfg : config) (s : state) (c h : N) (u : unacked) : state :=
   let size := msg_size s (u_msg u) mod two32 in
   match get_chan s c h with
   | Some ch =>
-    match find_consumer ch (u_ctag u) with
-    | Some cm =>
-      let '(s, _) := wake_consumer s c h (u_ctag u) in
-      (* cmr.Qos(): rabbit = [channel.qos; own copy], 0-9-1 = [channel.qos; conn.qos] *)
-      let s := upd_chan s c h (fun ch => ch <| ch_qos ::= fun w => qos_dec w size |>) in
-      if cfg_rabbit cfg
-      then upd_chan s c h (fun ch => upd_consumer ch (u_ctag u) (fun cm => cm <| c_own ::= fun w => qos_dec w size |>))
-      else match get_conn s c with
-           | Some cn => s <| conns := aset N.eqb c (cn <| cn_qos ::= fun w => qos_dec w size |>) (conns s) |>
-           | None => s
-           end
-    | None =>
-      let s := upd_chan s c h (fun ch => ch <| ch_qos ::= fun w => qos_dec w size |>) in
-      match get_conn s c with
-      | Some cn => s <| conns := aset N.eqb c (cn <| cn_qos ::= fun w => qos_dec w size |>) (conns s) |>
-      | None => s
-      end
-    end
+    let s :=
+      match find_consumer ch (u_ctag u) with
+      | Some cm =>
+        (* cmr.Qos(): rabbit = [channel.qos; own copy], 0-9-1 = [channel.qos; conn.qos] *)
+        let s := upd_chan s c h (fun ch => ch <| ch_qos ::= fun w => qos_dec w size |>) in
+        if cfg_rabbit cfg
+        then upd_chan s c h (fun ch => upd_consumer ch (u_ctag u) (fun cm => cm <| c_own ::= fun w => qos_dec w size |>))
+        else match get_conn s c with
+             | Some cn => s <| conns := aset N.eqb c (cn <| cn_qos ::= fun w => qos_dec w size |>) (conns s) |>
+             | None => s
+             end
+      | None =>
+        let s := upd_chan s c h (fun ch => ch <| ch_qos ::= fun w => qos_dec w size |>) in
+        match get_conn s c with
+        | Some cn => s <| conns := aset N.eqb c (cn <| cn_qos ::= fun w => qos_dec w size |>) (conns s) |>
+        | None => s
+        end
+      end in
+    wake_consumers cfg s c h
   | None => s
   end.
 
@@ -640,25 +653,7 @@ Definition consumer_turn (cfg : config) (fx : fixes) (s : state) (c h : N) (tag 
     end
   end.
 
-(* queue loop turn (queue.go: Start) *)
-Fixpoint rr_scan (n : nat) (cnt : nat) (s : state) (qn : string) : state :=
-  match n with
-  | O => s
-  | S n' =>
-    match get_queue s qn with
-    | None => s
-    | Some qu =>
-      if negb (q_active qu) then s else
-      let cur := Nat.modulo (S (q_rr qu)) cnt in
-      let s := set_queue s qn (qu <| q_rr := cur |>) in
-      match nth_error (q_consumers qu) cur with
-      | None => s
-      | Some (c, h, tag) =>
-        let '(s, ok) := wake_consumer s c h tag in
-        if ok then s else rr_scan n' cnt s qn
-      end
-    end
-  end.
+(* queue loop turn (queue.go: Start): every consumer of the queue is signalled; the pointer rotates who goes first *)
 Definition queue_loop_turn (s : state) (qn : string) : state :=
   match get_queue s qn with
   | None => s
@@ -666,7 +661,9 @@ Definition queue_loop_turn (s : state) (qn : string) : state :=
     if negb (q_call qu) then s else
     let s := set_queue s qn (qu <| q_call := false |>) in
     let cnt := List.length (q_consumers qu) in
-    if Nat.eqb cnt 0 then s else rr_scan cnt cnt s qn
+    if Nat.eqb cnt 0 then s else
+    let s := fold_left (fun s x => let '(c, h, tag) := x in fst (wake_consumer s c h tag)) (q_consumers qu) s in
+    upd_queue s qn (fun qu => qu <| q_rr := Nat.modulo (S (q_rr qu)) cnt |>)
   end.
 
 (* ------------------------------------------------------------------ *)
@@ -898,7 +895,7 @@ Definition handle_method (cfg : config) (fx : fixes) (s : state) (c h : N) (m : 
                         | None => s
                         end
            else set_chan s c h (ch <| ch_qos ::= fun w => qos_update w count size |>) in
-    ok s (out1 c h SQosOk)
+    ok (wake_consumers cfg s c h) (out1 c h SQosOk)
   | MPublish ex key mand imm =>
     if imm then refuse s (ChanErr NotImplemented 60 40) else
     match alookup seqb ex (exchanges s) with
